@@ -718,15 +718,15 @@ func (d *decoder) parseFitField(dm *defmsg, dfield fieldDef, fieldv reflect.Valu
 	case types.BaseByte, types.BaseEnum, types.BaseUint8, types.BaseUint8z:
 		fieldv.SetUint(uint64(d.tmp[0]))
 	case types.BaseSint8:
-		fieldv.SetInt(int64(d.tmp[0]))
+		fieldv.SetInt(int64(int8(d.tmp[0])))
 	case types.BaseSint16:
-		i16 := int64(dm.arch.Uint16(d.tmp[:dsize]))
+		i16 := int64(int16(dm.arch.Uint16(d.tmp[:dsize])))
 		fieldv.SetInt(i16)
 	case types.BaseUint16, types.BaseUint16z:
 		u16 := uint64(dm.arch.Uint16(d.tmp[:dsize]))
 		fieldv.SetUint(u16)
 	case types.BaseSint32:
-		i32 := int64(dm.arch.Uint32(d.tmp[:dsize]))
+		i32 := int64(int32(dm.arch.Uint32(d.tmp[:dsize])))
 		fieldv.SetInt(i32)
 	case types.BaseUint32, types.BaseUint32z:
 		u32 := uint64(dm.arch.Uint32(d.tmp[:dsize]))
